@@ -311,6 +311,11 @@ def _triage(ctx, rejected):
                     _report(ctx, case, ev, cause, len(groups[cause]))
                     missing.remove(cause)
                     break
+    if "hang" in missing:
+        # a watchdog timeout that cannot be reproduced is an artefact of wall-clock time on a loaded machine
+        missing.remove("hang")
+        ctx.notes.append("%d observation(s) hit the wall-clock watchdog but did not reproduce in isolation "
+                         "(two reproductions are required for a hang verdict): not reported" % len(groups["hang"]))
     if missing:
         if any("harness" in c for c in missing):
             raise vlib.Infra("harness instance does not conform to its shape: %s"
